@@ -92,6 +92,19 @@ pub struct MetadataInvalidKeyTypeError {
     span: Span,
 }
 
+#[derive(Debug, thiserror::Error, miette::Diagnostic, PartialEq, Eq, Clone)]
+#[error("invalid expression: {message}")]
+#[diagnostic(code(tx3::invalid_expression))]
+pub struct InvalidExpressionError {
+    pub message: String,
+
+    #[source_code]
+    src: Option<String>,
+
+    #[label]
+    span: Span,
+}
+
 #[derive(thiserror::Error, Debug, miette::Diagnostic, PartialEq, Eq, Clone)]
 pub enum Error {
     #[error("duplicate definition: {0}")]
@@ -126,6 +139,10 @@ pub enum Error {
     #[error(transparent)]
     #[diagnostic(transparent)]
     InvalidOptionalOutput(#[from] OptionalOutputError),
+
+    #[error(transparent)]
+    #[diagnostic(transparent)]
+    InvalidExpression(#[from] InvalidExpressionError),
 }
 
 impl Error {
@@ -137,6 +154,7 @@ impl Error {
             Self::MetadataSizeLimitExceeded(x) => &x.span,
             Self::MetadataInvalidKeyType(x) => &x.span,
             Self::InvalidOptionalOutput(x) => &x.span,
+            Self::InvalidExpression(x) => &x.span,
             _ => &Span::DUMMY,
         }
     }
@@ -187,6 +205,14 @@ impl Error {
             got: Self::symbol_type_name(got),
             src: None,
             span: ast.span().clone(),
+        })
+    }
+
+    pub fn invalid_expression(message: impl Into<String>, span: &Span) -> Self {
+        Self::InvalidExpression(InvalidExpressionError {
+            message: message.into(),
+            src: None,
+            span: span.clone(),
         })
     }
 
@@ -613,7 +639,23 @@ impl Analyzable for VariantCaseConstructor {
 
         let spread = self.spread.analyze(self.scope.clone());
 
-        name + fields + spread
+        let mut missing = AnalyzeReport::default();
+
+        if self.spread.is_none() {
+            for field in case.fields.iter() {
+                if self.find_field_value(&field.name.value).is_none() {
+                    missing.errors.push(Error::invalid_expression(
+                        format!(
+                            "missing field '{}' in constructor (and no spread to take it from)",
+                            field.name.value
+                        ),
+                        &self.span,
+                    ));
+                }
+            }
+        }
+
+        name + fields + spread + missing
     }
 
     fn is_resolved(&self) -> bool {
